@@ -46,6 +46,7 @@ type Profile struct {
 	DevBias      bool // many device errors
 	CleanPct     int  // percentage of histories kept away from the known value-path defects
 	Burst        bool // often issue all Sets before any controller runs (overlapping transactions)
+	RollbackBias bool // about every second request is a rollback; clean histories may roll back too
 }
 
 type sim struct {
@@ -334,8 +335,12 @@ func Generate(r *rng.R, p Profile) fw.Case {
 		steps++
 		switch {
 		case g.nTx < sets && (len(g.queue) == 0 || r.Chance(1, 6)):
-			if p.Rollbacks && !g.clean && g.nTx > 0 && r.Chance(1, 4) {
-				g.do(fmt.Sprintf("v2.rollback %d", r.Range(1, g.nTx+1)))
+			if p.Rollbacks && (!g.clean || p.RollbackBias) && g.nTx > 0 && (r.Chance(1, 4) || (p.RollbackBias && r.Chance(1, 3))) {
+				k := r.Range(1, g.nTx+1)
+				if p.RollbackBias && r.Chance(1, 2) {
+					k = g.nTx // the latest transaction: the legal case most of the time
+				}
+				g.do(fmt.Sprintf("v2.rollback %d", k))
 				g.nTx++
 				g.enqueue(fmt.Sprintf("tx:%d", g.nTx))
 				g.tags["rollback"] = true
@@ -421,6 +426,9 @@ func Generate(r *rng.R, p Profile) fw.Case {
 	nt := g.tags["write"] && g.nTx > 0
 	if p.MultiBias {
 		nt = nt && (g.tags["multi-target"] || g.tags["verdict"])
+	}
+	if p.RollbackBias {
+		nt = nt && g.tags["rollback"]
 	}
 	return fw.Case{Script: g.script, Tags: tags, Nontrivial: nt}
 }
